@@ -441,6 +441,14 @@ def make_cert(sans, peer_addr, nodeid):
             names.append(x509.UniformResourceIdentifier('dtn://somebody-else/'))
         elif kind == 'uri-other2':
             names.append(x509.UniformResourceIdentifier('ipn:99.0'))
+        elif kind == 'uri-case':
+            # differs from the announced node ID only in the letter case of its path (the part of a URI that is
+            # case-sensitive under every normalisation): another node
+            parts = (nodeid or '').split('/', 3)
+            if len(parts) == 4 and parts[3].swapcase() != parts[3]:
+                names.append(x509.UniformResourceIdentifier('/'.join(parts[:3] + [parts[3].swapcase()])))
+            else:
+                names.append(x509.UniformResourceIdentifier('dtn://peer/sVC'))
     subject = x509.Name([x509.NameAttribute(NameOID.COMMON_NAME, 'peer')])
     builder = (x509.CertificateBuilder().subject_name(subject).issuer_name(subject).public_key(pkey.public_key())
                .serial_number(1000 + len(_cert_cache))
